@@ -17,7 +17,7 @@ CONFIG = {
                    "no generation carries directory hashes are n/a; the tree is identical in all generations so 'differs from "
                    "some generations only' does not arise."),
     "technique": "deterministic simulation: seeded sealed histories + single tree faults at every depth; exit-code oracle for verify -dh",
-    "quick": {"runs": 360, "budget_s": 60},
+    "quick": {"runs": 1440, "budget_s": 90},
     "thorough": {"runs": 7000, "budget_s": 540},
     "rule": ("one run = sealed world + at most one mutation + one verify -dh; one evaluation = that verify. Distinct = (mutation "
              "kind, depth of the mutated entry's parent below the root, inside-nested-history, #generations, #formats, has -n "
